@@ -161,6 +161,10 @@ Section WithEnv.
     : res (istream * section * list N) :=
     let st2 := seekg st1 (xlat_apply t pos) in
     let '(st3, got) := read st2 (shdr_size (s_cls s)) in
+    if negb (lenN got =? shdr_size (s_cls s)) then
+      let s0 := sec_with_raw enc (with_stream_size s ss) (repeatN 0 (shdr_size (s_cls s))) in
+      Ok (st3, with_load_flags s0 lazy (s_loaded s0) (s_can_load s0), [])
+    else
     let s1 := sec_with_raw enc (with_stream_size s ss) (fill_struct (shdr_bytes enc s) got) in
     let s2 := with_load_flags s1 lazy (s_loaded s1) (s_can_load s1) in
     if lazy || s_loaded s2 then Ok (st3, s2, [])
@@ -170,6 +174,10 @@ Section WithEnv.
       | Some st4 => Ok (st4, s3, al)
       | None => Fault NullDeref
       end.
+  Lemma zero_header_null c enc idx ss :
+    let s0 := with_index (new_section c) idx in
+    sh_type (sec_with_raw enc (with_stream_size s0 ss) (repeatN 0 (shdr_size (s_cls s0)))) = SHT_NULL.
+  Proof. destruct c, enc; reflexivity. Qed.
   Lemma section_load_unfold st t enc s pos lazy :
     section_load junk st t enc s pos lazy =
     section_load_rest (if xlat_empty t then seekg_end st else st)
@@ -198,6 +206,10 @@ Section WithEnv.
     set (s2 := with_load_flags s1 lazy (s_loaded s1) (s_can_load s1)).
     assert (C3 : is_content st3 = is_content st) by congruence.
     assert (I3 : st_inv st3) by (unfold st_inv in *; congruence).
+    destruct (N.eqb_spec (lenN got) (shdr_size (s_cls s0))) as [Hfull|Hshort]; cbn [negb].
+    2:{ (* the entry was cut: an empty section *)
+        eexists st3, _, []. split; [reflexivity|]. split; [unfold fits; cbn; exact I|]. split; [exact C3|]. split; [exact I3|].
+        split; [congruence|]. intros Hx. split; [constructor|]. right. cbn [sh_type with_load_flags]. apply zero_header_null. }
     assert (F2 : fits s2) by (unfold fits; cbn; exact I).
     assert (SS : s_stream_size s2 = ss) by reflexivity.
     assert (Hnull : is_fail st2 = true -> sh_type s2 = SHT_NULL).
